@@ -35,6 +35,9 @@ func ContextForStoringResults(ctx context.Context) context.Context {
 }
 
 func ContextForPreparedStatement(ctx context.Context, values *ReplaceValues) context.Context {
+	// The value expressions of the USING list belong to the statement that wrote them: a placeholder among
+	// them is one of the SURROUNDING statement, to be read in the context that statement runs in.
+	values.Outer = ctx
 	return context.WithValue(ctx, StatementReplaceValuesContextKey, values)
 }
 
